@@ -111,7 +111,7 @@ theorem readLeaf_spec (h : Heap) (file : File) (hh : HeapWF h) (fo : FileOK h fi
     have hra : ∀ s : RSt, resolveAlias file fa a s = .ok s := fun s => by simp only [resolveAlias, hsa]
     cases hml : s.memo.lookup (pre ++ [nm]) with
     | some n =>
-      obtain ⟨g'', h1, _, h3⟩ := inv.memo _ n hml
+      obtain ⟨g'', h1, h3⟩ := inv.memo _ n hml
       rw [hl] at h1
       cases h1
       simp only [Grp.src_mk, hsrc] at h3
